@@ -32,6 +32,7 @@ HARNESS_FILES = ["c04.go", "c04_files.go", "c04_gen.go"] + pipelib.PIPE_FILES
 C04_CLASSES = {
     "argument_file_missing_at_start", "argument_file_corrupt_at_start", "top_or_retained_file_removed",
     "final_output_content_changed", "final_output_missing_or_changed", "books_representation",
+    "cloned_fork_books_differ",
 }
 C14_CLASSES = {
     "temp_file_survives", "chunk_file_of_split_stage_survives", "volatile_unreferenced_file_survives",
